@@ -130,6 +130,13 @@ def classify_diag(d, lines, info):
                     return {"fn": fn, "kind": kind, "labels": labels, "sidecar_line": sl, "callee": callee,
                             "msg": msg, "line": ptline, "text": (lines[ptline - 1].strip() if ptline else "")}
             break
+    if kind == "implicit" and "precondition not satisfied" in msg:
+        kind = "call-precondition"
+        if chosen:
+            ln = chosen["line_start"]
+            labels = labels or ""
+            return {"fn": fn, "kind": kind, "labels": labels, "sidecar_line": sl, "callee_clause": (lines[ln - 1].strip() if 0 < ln <= len(lines) else ""),
+                    "msg": msg + " :: " + (lines[ln - 1].strip()[:160] if 0 < ln <= len(lines) else ""), "line": ptline, "text": (lines[ptline - 1].strip() if ptline else "")}
     if kind == "implicit" and ptline:
         # inside a hint block?
         k = ptline
@@ -167,6 +174,9 @@ def front_end_failed(res):
     if js is None or "verification-results" not in js:
         return True
     vr = js["verification-results"]
+    # rustc errors abort before any query is run: encountered-error with zero verification errors
+    if vr.get("encountered-error") and not vr.get("errors"):
+        return True
     return bool(vr.get("encountered-vir-error"))
 
 
